@@ -54,6 +54,20 @@ func (c *Ctx) findGuardedGlobals() []*guardedGlobal {
 type lockState struct {
 	held     bool
 	deferred bool // a deferred Unlock is pending
+	shared   bool // held only as a reader (RLock): enough for reads, not for writes
+}
+
+// isWriteAccess: the instruction modifies the guarded data (store, map update, delete).
+func isWriteAccess(in ssa.Instruction) bool {
+	switch x := in.(type) {
+	case *ssa.Store, *ssa.MapUpdate:
+		return true
+	case *ssa.Call:
+		if b, ok := x.Call.Value.(*ssa.Builtin); ok && (b.Name() == "delete" || b.Name() == "clear") {
+			return true
+		}
+	}
+	return false
 }
 
 // lockOp classifies a call as Lock/Unlock (or RLock/RUnlock) on gg's mutex.
@@ -75,8 +89,10 @@ func lockOp(in ssa.Instruction, gg *guardedGlobal) (op string, isDefer bool) {
 	}
 	_, isDefer = in.(*ssa.Defer)
 	switch f.Name() {
-	case "Lock", "RLock":
+	case "Lock":
 		return "lock", isDefer
+	case "RLock":
+		return "rlock", isDefer
 	case "Unlock", "RUnlock":
 		return "unlock", isDefer
 	}
@@ -113,13 +129,15 @@ func analyseLock(fn *ssa.Function, gg *guardedGlobal, entryHeld bool) *lockResul
 					res.LockOps++
 				}
 				switch {
-				case op == "lock" && !isDefer:
+				case (op == "lock" || op == "rlock") && !isDefer:
 					if s.held && record {
 						res.DoubleLock = append(res.DoubleLock, ins)
 					}
 					s.held = true
+					s.shared = op == "rlock"
 				case op == "unlock" && !isDefer:
 					s.held = false
+					s.shared = false
 				case op == "unlock" && isDefer:
 					s.deferred = true
 				}
@@ -132,7 +150,7 @@ func analyseLock(fn *ssa.Function, gg *guardedGlobal, entryHeld bool) *lockResul
 						continue
 					}
 					if fa, ok := (*opnd).(*ssa.FieldAddr); ok && fa.X == ssa.Value(gg.G) && fa.Field != gg.MuField {
-						res.Accesses = append(res.Accesses, guardedAccess{In: ins, Held: s.held, Desc: ins.String()})
+						res.Accesses = append(res.Accesses, guardedAccess{In: ins, Held: s.held && !(s.shared && isWriteAccess(ins)), Desc: ins.String()})
 					}
 				}
 				if r, ok := ins.(*ssa.Return); ok {
@@ -161,7 +179,7 @@ func analyseLock(fn *ssa.Function, gg *guardedGlobal, entryHeld bool) *lockResul
 				work = append(work, s)
 				continue
 			}
-			n := lockState{held: cur.held && out.held, deferred: cur.deferred && out.deferred}
+			n := lockState{held: cur.held && out.held, deferred: cur.deferred && out.deferred, shared: cur.shared || out.shared}
 			if n != *cur {
 				*cur = n
 				work = append(work, s)
